@@ -301,6 +301,24 @@ func (b *builder) build(s *Shape, c bctx) reflect.Value {
 			m.SetMapIndex(reflect.ValueOf(s.Keys[i]), b.build(k, cc))
 		}
 		v.Set(m)
+	case KTStruct:
+		ts := &TStructT{Count: 3}
+		base := sub(c, "", "ptr")
+		base.direct, base.typed = false, false
+		fc := func(name, tag string) bctx {
+			x := sub(base, "."+name, "")
+			x.mode, x.tag, x.hasTag, x.exp = "field", tag, true, nil
+			return x
+		}
+		ts.Pub = b.leaf(fc("Pub", "public"), false)
+		ts.Sec = b.leaf(fc("Sec", "secret"), false)
+		ts.Sens = b.bytesVal(b.leaf(fc("Sens", "sensitive,hmac-sha256"), false))
+		ac := sub(base, ".Attrs", "")
+		ts.Attrs = map[string]interface{}(b.build(s.Kids[0], ac).Interface().(TMapT))
+		pc := sub(base, ".Plain", "")
+		pc.mode, pc.tag, pc.hasTag, pc.exp = "untagged-map", "", false, nil
+		ts.Plain = b.build(s.Kids[1], pc).Interface().(map[string]string)
+		v.Set(reflect.ValueOf(ts))
 	case KPTMap:
 		inner := b.build(s.Kids[0], sub(c, "", "ptr"))
 		p := reflect.New(tTMap)
@@ -386,7 +404,7 @@ func Build(p Payload, cfg Cfg) Built {
 		ptr := reflect.New(structType(p.Root))
 		b.fill(p.Root, ptr.Elem(), sub(root, "", "ptr"))
 		val = ptr.Interface()
-	case TTMaps, TPTMaps:
+	case TTMaps, TPTMaps, TTStruct:
 		val = b.build(p.Root, root).Interface()
 	case TStruct:
 		c := root
